@@ -208,6 +208,11 @@ func tryCreateDateTimestamp(year, month, day int, precision TimestampPrecision) 
 }
 
 func tryCreateTimestamp(ts []int, nsecs int, overflow bool, offset, sign int64, precision TimestampPrecision, fractionPrecision uint8) (Timestamp, error) {
+	// time.Date would silently carry hour 24, minute 60 or second 60 into the next unit.
+	if ts[3] < 0 || ts[3] > 23 || ts[4] < 0 || ts[4] > 59 || ts[5] < 0 || ts[5] > 59 {
+		return Timestamp{}, fmt.Errorf("ion: invalid timestamp")
+	}
+
 	date := time.Date(ts[0], time.Month(ts[1]), ts[2], ts[3], ts[4], ts[5], nsecs, time.UTC)
 	// time.Date converts 2000-01-32 input to 2000-02-01
 	if ts[0] != date.Year() || time.Month(ts[1]) != date.Month() || ts[2] != date.Day() {
@@ -215,7 +220,7 @@ func tryCreateTimestamp(ts []int, nsecs int, overflow bool, offset, sign int64, 
 	}
 
 	if precision <= TimestampPrecisionDay {
-		return NewDateTimestamp(date, precision), nil
+		return checkTimestampYear(NewDateTimestamp(date, precision))
 	}
 
 	if overflow {
@@ -225,17 +230,26 @@ func tryCreateTimestamp(ts []int, nsecs int, overflow bool, offset, sign int64, 
 	if offset == 0 {
 		if sign == -1 {
 			// Negative zero timezone offset is Unspecified
-			return NewTimestampWithFractionalSeconds(date, precision, TimezoneUnspecified, fractionPrecision), nil
+			return checkTimestampYear(NewTimestampWithFractionalSeconds(date, precision, TimezoneUnspecified, fractionPrecision))
 		}
 
 		// Positive zero timezone offset is UTC
-		return NewTimestampWithFractionalSeconds(date, precision, TimezoneUTC, fractionPrecision), nil
+		return checkTimestampYear(NewTimestampWithFractionalSeconds(date, precision, TimezoneUTC, fractionPrecision))
 	}
 
 	date = date.In(time.FixedZone("fixed", int(offset)*60))
 
 	// Non-zero offset is Local
-	return NewTimestampWithFractionalSeconds(date, precision, TimezoneLocal, fractionPrecision), nil
+	return checkTimestampYear(NewTimestampWithFractionalSeconds(date, precision, TimezoneLocal, fractionPrecision))
+}
+
+// checkTimestampYear rejects timestamps whose year, in their own offset, is outside 0001-9999.
+// (The UTC fields of a binary timestamp may legitimately say year 0 or 10000.)
+func checkTimestampYear(ts Timestamp) (Timestamp, error) {
+	if year := ts.dateTime.Year(); year < 1 || year > 9999 {
+		return Timestamp{}, fmt.Errorf("ion: invalid timestamp")
+	}
+	return ts, nil
 }
 
 // MustParseTimestamp parses the given string into an ion timestamp object,
